@@ -266,15 +266,21 @@ func main() {
 			}
 			pat := common.Pick(r, pats)
 			wrapL, wrapR := "[path(%s)]", "[%s path(%s)]"
+			// the update forms only for patterns that bind once: an update through k copies of a
+			// path list is not the update through one copy when an earlier path covers a later one
+			once := !strings.Contains(pat, "(\"a\", \"b\")")
 			switch r.Intn(4) {
 			case 0:
-				wrapL, wrapR = "(%s) |= 1", "%s ((%s) |= 1)"
+				if once {
+					wrapL, wrapR = "(%s) |= 1", "%s ((%s) |= 1)"
+				}
 			case 1:
-				wrapL, wrapR = "del(%s)", "%s del(%s)"
+				if once {
+					wrapL, wrapR = "del(%s)", "%s del(%s)"
+				}
 			}
 			bind := "(. as " + pat + " | 1) as $one | "
 			lhs := "try (" + fmt.Sprintf(wrapL, ". as "+pat+" | "+b) + ") catch \"E\""
-			// an update or deletion through k copies of the same paths is the update through them once
 			rhs := "try (([. as " + pat + " | 1] | length) as $n | if $n == 0 then . else " + fmt.Sprintf(wrapL, b) + " end) catch \"E\""
 			if strings.HasPrefix(wrapR, "[") {
 				rhs = "try [" + bind + "path(" + b + ")] catch \"E\""
